@@ -392,6 +392,156 @@ def h6_advance(vertical=0, timeout=200, part=None, **kw):
                          timeout, concretize=conc, shims={"namespace_shims": shims}, part=part, int_lo=-1, int_hi=12)
 
 
+# ---------------------------------------------------------------------------------------------------------- H7 embedded TrueType cmap (format 4)
+def sym_unpack(fmt, data):
+    """struct.unpack for big-endian integer formats (counts, b B h H l L i I, 4s) on bytes whose elements may be symbolic"""
+    import re
+    import struct
+    data = SBy.of(data)
+    if data.concrete():
+        return struct.unpack(fmt, bytes(data.els))
+    m = re.fullmatch(r">((?:\d*[bBhHlLiIs])+)", fmt)
+    if not m:
+        raise symx.Unsupported("struct.unpack(%r) on symbolic bytes" % fmt)
+    sizes = {"b": 1, "B": 1, "h": 2, "H": 2, "l": 4, "L": 4, "i": 4, "I": 4}
+    items = [(int(c or 1), ch) for c, ch in re.findall(r"(\d*)([bBhHlLiIs])", m.group(1))]
+    need = sum(c if ch == "s" else c * sizes[ch] for c, ch in items)
+    if len(data) != need:
+        raise struct.error("unpack requires a buffer of %d bytes" % need)
+    out, i = [], 0
+    for c, ch in items:
+        if ch == "s":
+            chunk = data.els[i:i + c]
+            out.append(bytes(chunk) if all(isinstance(e, int) for e in chunk) else SBy(chunk))
+            i += c
+            continue
+        n = sizes[ch]
+        for _ in range(c):
+            chunk = data.els[i:i + n]
+            i += n
+            if all(isinstance(e, int) for e in chunk):
+                out.append(int.from_bytes(bytes(chunk), "big", signed=ch.islower()))
+                continue
+            v = 0
+            for e in chunk:
+                v = v * 256 + e
+            if ch.islower():
+                v = z3.If(v >= 1 << (8 * n - 1), v - (1 << (8 * n)), v)
+            out.append(SI(z3.simplify(v)))
+    return tuple(out)
+
+
+def _be16(v):
+    """two big-endian bytes of an int or a z3 Int term in [0, 65535]"""
+    return [v >> 8, v & 255] if isinstance(v, int) else [v / 256, v % 256]
+
+
+def tt_font(segs, glyph_array):
+    """a minimal TrueType file with one cmap subtable (platform 3, encoding 1, format 4).  segs: [(start, end, idDelta as unsigned 16-bit, index into glyph_array or None)];
+    the terminating 0xFFFF segment is appended here.  Returns the byte elements (ints / z3 terms)."""
+    segs = list(segs) + [(0xFFFF, 0xFFFF, 1, None)]
+    n = len(segs)
+    sub = [0, 4, 0, 0, 0, 0, (2 * n) >> 8, (2 * n) & 255, 0, 0, 0, 0, 0, 0]          # format, length (unused by readers here), language, segCountX2, searchRange.., rangeShift
+    for _, e, _, _ in segs:
+        sub += _be16(e)
+    sub += [0, 0]
+    for st, _, _, _ in segs:
+        sub += _be16(st)
+    for _, _, d, _ in segs:
+        sub += _be16(d)
+    for i, (_, _, _, gi) in enumerate(segs):
+        # idRangeOffset[i]: byte distance from this very field to the glyphIdArray element of the segment's first code (OpenType cmap format 4)
+        sub += _be16(0 if gi is None else 2 * (n - i) + 2 * gi)
+    for g in glyph_array:
+        sub += _be16(g)
+    cmap = [0, 0, 0, 1, 0, 3, 0, 1, 0, 0, 0, 12] + sub
+    head = list(b"\x00\x01\x00\x00") + [0, 1, 0, 0, 0, 0, 0, 0] + list(b"cmap") + [0, 0, 0, 0] + [0, 0, 0, 28] + list(len(cmap).to_bytes(4, "big"))
+    return head + cmap
+
+
+def tt_expected(segs, glyph_array, mod=lambda v: v % 65536, is_zero=lambda v: v == 0):
+    """(char, glyph) pairs by the OpenType specification: idRangeOffset 0 -> (c + idDelta) mod 65536; else the glyphIdArray value v -> 0 if v == 0 else (v + idDelta) mod 65536"""
+    out = []
+    for st, e, d, gi in segs:
+        for k, c in enumerate(range(st, e + 1)):
+            if gi is None:
+                out.append((c, mod(c + d), None))
+            else:
+                v = glyph_array[gi + k]
+                out.append((c, mod(v + d), v))
+    return out
+
+
+TT_SHAPES = [  # (segments as (start, end, uses_array), glyph array length): the array index of a segment is the running count of array entries
+    [(0x41, 0x42, False)],
+    [(0x41, 0x42, True)],
+    [(0x41, 0x41, False), (0x50, 0x51, True)],
+    [(0x41, 0x42, True), (0x50, 0x50, True)],
+    [(0x30, 0x30, True), (0x41, 0x41, False), (0x50, 0x51, True)],
+]
+
+
+def h7_ttcmap(timeout=200, part=None, **kw):
+    """TrueTypeFont.create_unicode_map on a generated font file whose format-4 cmap has 1-3 segments, symbolic idDelta values and symbolic glyphIdArray entries:
+    every character code maps to the glyph the OpenType specification assigns (so the Unicode of a shown glyph id is that character)"""
+    import io
+    import types
+    import struct
+    import pdfminer.pdffont as pf
+    shims = numshim.install("pdffont", "cmapdb")
+    pf.struct = types.SimpleNamespace(unpack=sym_unpack, error=struct.error, pack=struct.pack)
+
+    class Rec:
+        def __init__(self):
+            self.calls = []
+
+        def add_cid2unichr(self, cid, code):
+            self.calls.append((cid, code))
+    pf.FileUnicodeMap = Rec
+
+    def fn(ex):
+        shape = TT_SHAPES[ex.choice(len(TT_SHAPES), "shape")]
+        segs, garr, gi = [], [], 0
+        for i, (st, e, arr) in enumerate(shape):
+            d = ex.int("d%d" % i, 0, 65535)                      # idDelta as stored (two's complement 16 bit)
+            if arr:
+                segs.append((st, e, d.e, gi))
+                for k in range(e - st + 1):
+                    garr.append(ex.int("g%d" % (gi + k), 0, 65535).e)
+                gi += e - st + 1
+            else:
+                segs.append((st, e, d.e, None))
+        data = SBy(tt_font(segs, garr))
+        info = {"shape": shape, "data": data}
+        try:
+            m = pf.TrueTypeFont("F", sbytes.SymFile(data)).create_unicode_map()
+        except symx.Violation:
+            raise
+        except Exception as e:
+            ex.require(False, "create_unicode_map raised %s: %s" % (type(e).__name__, e), **info)
+        got = {}
+        for cid, code in m.calls:
+            got[int(code)] = cid
+        exp = tt_expected(segs, garr, mod=lambda v: v % 65536)
+        got.pop(0xFFFF, None)                       # the mandatory final segment 0xFFFF..0xFFFF (glyph 0) may or may not be entered
+        ex.require(set(got) <= set(c for c, _, _ in exp), "characters mapped: %r, the cmap covers %r" % (sorted(got), [c for c, _, _ in exp]), **info)
+        conds = []
+        for c, g, v in exp:
+            if c not in got:                        # only a character whose glyphIdArray entry is 0 (missing glyph) may be left out
+                conds.append(z3.BoolVal(False) if v is None else v == 0)
+                continue
+            gz = symx.zi(got[c]) if not isinstance(got[c], z3.ExprRef) else got[c]
+            conds.append(gz == g if v is None else z3.If(v == 0, gz == 0, gz == g))
+        ex.require(SB(z3.And(conds)), "a character code is mapped to a glyph other than the one the format-4 subtable assigns", **info)
+
+    def conc(m, info):
+        return {"shape": [list(x) for x in info["shape"]], "data": sbytes.model_bytes(m, info["data"])}
+    return core.run_symx("H7_ttcmap", fn, [pf.TrueTypeFont.__init__, pf.TrueTypeFont.create_unicode_map],
+                         {"font": "generated TrueType file, one cmap subtable (3,1) format 4", "segments": [[(hex(a), hex(b), "glyphIdArray" if c else "delta only") for a, b, c in sh] for sh in TT_SHAPES],
+                          "idDelta": "symbolic 16 bit per segment", "glyphIdArray": "symbolic 16-bit entries (0 = missing glyph)"},
+                         timeout, concretize=conc, shims={"namespace_shims": shims + ["pdffont.struct.unpack -> big-endian arithmetic", "FileUnicodeMap -> recording stub"]}, part=part, int_lo=-1, int_hi=70000)
+
+
 def replay(harness, inp):
     import pdfminer.cmapdb as cm
     if harness == "H1_identity":
@@ -478,6 +628,42 @@ def replay(harness, inp):
             cm.CMapDB._umap_cache.update(c2)
     if harness == "H3_unichr":
         return core.replay_by_choices(h3_unichr, {}, inp["_choices"])
+    if harness == "H7_ttcmap":
+        import io
+        import pdfminer.pdffont as pf
+        data = inp["data"]
+        shape = [tuple(x) for x in inp["shape"]]
+        try:
+            um = pf.TrueTypeFont("F", io.BytesIO(data)).create_unicode_map()
+        except Exception as e:
+            return "TrueType file %s: create_unicode_map raised %r" % (data.hex(), e)
+        # read the concrete segment values back from the file (layout of tt_font) and apply the OpenType rule
+        n = len(shape) + 1
+        base = 28 + 12 + 14
+        u16 = lambda off: int.from_bytes(data[off:off + 2], "big")
+        ends = [u16(base + 2 * i) for i in range(n)]
+        starts = [u16(base + 2 * n + 2 + 2 * i) for i in range(n)]
+        deltas = [u16(base + 4 * n + 2 + 2 * i) for i in range(n)]
+        ro = base + 6 * n + 2
+        offs = [u16(ro + 2 * i) for i in range(n)]
+        for i in range(n - 1):
+            for c in range(starts[i], ends[i] + 1):
+                if offs[i] == 0:
+                    g = (c + deltas[i]) % 65536
+                else:
+                    v = u16(ro + 2 * i + offs[i] + 2 * (c - starts[i]))
+                    if v == 0:
+                        continue                    # missing glyph: nothing to look up
+                    g = (v + deltas[i]) % 65536
+                try:
+                    ch = um.get_unichr(g)
+                except KeyError:
+                    ch = None
+                others = [c2 for j in range(n - 1) for c2 in range(starts[j], ends[j] + 1) if c2 != c]
+                if ch != chr(c) and not (ch is not None and len(ch) == 1 and ord(ch) in others):       # another character may legitimately share the glyph (last one wins)
+                    return "TrueType cmap (format 4, segments %r, deltas %r, idRangeOffsets %r, file %s): character %#x has glyph %d by the OpenType rule, the unicode map gives %r for that glyph" % (
+                        list(zip(starts, ends))[:-1], deltas[:-1], offs[:-1], data.hex(), c, g, ch)
+        return None
     if harness == "H6_advance":
         import pdfminer.pdffont as pf
         from pdfminer.psparser import LIT
@@ -553,4 +739,5 @@ def jobs(tier):
         J.append(Job("H4_widths:%d" % which, "h4_widths", {"which": which}, 300, "H4_widths"))
     for v in (0, 1):
         J.append(Job("H6_advance:%s" % "HV"[v], "h6_advance", {"vertical": v}, 300, "H6_advance"))
+    J.append(Job("H7_ttcmap", "h7_ttcmap", {}, 300))
     return J
